@@ -195,7 +195,9 @@ pub fn c05(ctx: &CheckCtx) -> CheckResult {
             // the same programs through wait_timeout(_while) / park_timeout / call_once_force
             ("sync", if ctx.tier.is_thorough() { "thorough-alt" } else { "quick-alt" }, mode.clone()),
             // park / unpark around blocking channel operations
-            ("mpsc", "mix", mode),
+            ("mpsc", "mix", mode.clone()),
+            // a Once whose first initialiser panicked: call_once / call_once_force racing on it
+            ("sync", "once-poison", mode),
         ],
         &[VKind::Sound, VKind::Enabled, VKind::Ending, VKind::Abort],
         if ctx.tier.is_thorough() { 1500.0 } else { 50.0 },
